@@ -42,6 +42,14 @@ class Fn:
             return equal_copy(t)
         if self.name == 'syntax':
             compile('1 +', '<unknown>', 'eval')     # a real SyntaxError with location info (its rendering has several lines)
+        if self.name == 'nested':
+            return glom(t, 'zz_inner')              # a nested glom() call that fails: its error carries a trace of its own
+        if self.name == 'nestedlog':
+            try:
+                return glom(t, 'zz_inner')
+            except GlomError as e:
+                str(e)                              # user code that logs the inner error before re-raising it
+                raise
         return t
 
     def __repr__(self):
@@ -172,6 +180,8 @@ def ev(term, target):
             return equal_copy(target)
         if term[1] == 'syntax':
             raise F('SyntaxError', False)
+        if term[1] in ('nested', 'nestedlog'):
+            raise F('PathAccessError')
         return target
     if k == 'check':
         if type(target) is str:
@@ -339,6 +349,13 @@ def parse(msg):
             else:
                 items.append({'depth': len(m2.group(1)), 'marker': m2.group(2), 'kind': 'E', 'text': m2.group(3)})
             i += 1
+            if not m and m2.group(3).endswith('error raised while processing, details below.'):
+                # the error of a nested glom() call: its text embeds a complete trace of its own, up to its own final line
+                while i < len(lines):
+                    items[-1]['text'] += '\n' + lines[i]
+                    i += 1
+                    if not lines[i - 1].startswith(' '):
+                        break
             end = i
             continue
         pending.append(lines[i])
@@ -516,6 +533,10 @@ def run_case(case):
     expect_last = traceback.format_exception_only(type(orig), orig)[-1].rstrip('\n') if orig is not None else None
     if 'str() failed' in last or 'str() failed' in msg:
         return R({'expected': 'the message of the original error', 'observed': last, **where}, oc, sig='str-failed')
+    if expect_last is not None and '\n' in expect_last:
+        if not msg.rstrip('\n').endswith(expect_last):
+            return R({'expected': 'message ends with %r' % expect_last, 'observed': msg[-600:], **where}, oc)
+        last = expect_last
     if expect_last is not None and last != expect_last:
         return R({'expected': 'last line %r' % expect_last, 'observed': last, **where}, oc)
     if want.err not in last:
@@ -533,7 +554,7 @@ def kinds(term):
 
 
 OK_LEAVES = [['path', 'a'], ['fn', 'ok'], ['fn', 'copy'], ['T', 'n'], ['val', 'v']]
-FAIL_LEAVES = [['path', 'zz'], ['T', 'zz'], ['Tattr', 'zz'], ['fn', 'boom'], ['fn', 'syntax'], ['check'], ['m', 5], ['match'], ['S', 'zz'], ['path', 'a.zz']]
+FAIL_LEAVES = [['path', 'zz'], ['T', 'zz'], ['Tattr', 'zz'], ['fn', 'boom'], ['fn', 'syntax'], ['fn', 'nested'], ['fn', 'nestedlog'], ['check'], ['m', 5], ['match'], ['S', 'zz'], ['path', 'a.zz']]
 
 
 def outcome_of(term):
@@ -633,8 +654,112 @@ def gen_cases(tier):
     return cases
 
 
+# ---------------------------------------------------------------------------
+# long displayed values: the (truncated) Target line must be a prefix of a faithful rendering of the object received
+
+import collections
+import reprlib
+
+
+class Rows(list):
+    def __repr__(self):
+        return 'Rows<%s>' % ', '.join(repr(x) for x in self)
+
+
+class Pair(tuple):
+    def __repr__(self):
+        return 'Pair<%s>' % ', '.join(repr(x) for x in self)
+
+
+class Table(dict):
+    def __repr__(self):
+        return 'Table<%s>' % ', '.join('%r=%r' % kv for kv in self.items())
+
+
+N_LONG = 150
+LONG_VALUES = {
+    'ordereddict-reversed': lambda: collections.OrderedDict(('k%03d' % i, i) for i in reversed(range(N_LONG))),
+    'defaultdict': lambda: collections.defaultdict(None, ((i, [i]) for i in range(N_LONG))),
+    'list-subclass-own-repr': lambda: Rows(range(N_LONG)),
+    'tuple-subclass-own-repr': lambda: Pair(range(N_LONG)),
+    'dict-subclass-own-repr': lambda: Table((i, i) for i in range(N_LONG)),
+    'dict-unsorted-insertion': lambda: {'key%d' % i: i for i in range(N_LONG)},
+    'dict-int-keys-reversed': lambda: {i: i for i in reversed(range(N_LONG))},
+    'deque': lambda: collections.deque(range(N_LONG)),
+    'plain-list': lambda: list(range(N_LONG)),
+    'plain-tuple': lambda: tuple(range(N_LONG)),
+    'list-of-long-dicts': lambda: [{'key%d' % i: i for i in range(N_LONG)}, 1],
+    'short-dict-subclass': lambda: Table(a=1),
+    'short-ordereddict': lambda: collections.OrderedDict([('b', 1), ('a', 2)]),
+}
+LONG_POSITIONS = ['root', 'after-step', 'list-item', 'after-callable']
+LONG_FAILS = {'path': lambda: 'zz', 'T-item': lambda: T['zz'], 'T-attr': lambda: T.zz, 'fn': lambda: Fn('boom'),
+              'chain': lambda: (Fn('ok'), 'zz'), 'coalesce': lambda: Coalesce('zz', T.zz)}
+
+_REPRLIB = reprlib.Repr()
+for _name in list(_REPRLIB.__dict__):
+    if isinstance(getattr(_REPRLIB, _name), int):
+        setattr(_REPRLIB, _name, 1024)
+
+
+def faithful_renderings(v):
+    out = []
+    for f in (repr, _REPRLIB.repr, myrepr):
+        try:
+            out.append(f(v).replace("\\'", "'"))
+        except Exception:
+            pass
+    return out
+
+
+def run_long(case):
+    vname, position, fname = case
+    value = LONG_VALUES[vname]()
+    fail = LONG_FAILS[fname]()
+    if position == 'root':
+        target, spec, shown = value, fail, [value]
+    elif position == 'after-step':
+        target = {'a': value}
+        spec, shown = ('a', fail), [target, value]
+    elif position == 'list-item':
+        target = {'a': [value]}
+        spec, shown = ('a', [fail]), [target, target['a'], value]
+    else:
+        target = 7
+        spec, shown = ((lambda t: value), fail), [7, value]
+    try:
+        glom(target, spec)
+        return R({'expected': 'a failure', 'observed': 'no exception', 'case': repr(case)}, 'no-failure')
+    except Exception as e:
+        msg = str(e)
+    items, rest, perr = parse(msg)
+    where = {'value': vname, 'position': position, 'failing spec': fname, 'message': msg[:1200]}
+    if perr:
+        return R({'expected': 'a target-spec trace', 'observed': perr, **where}, 'parse')
+    tlines = [it['text'] for it in items if it['kind'] == 'T']
+    # every Target line must display one of the objects the evaluation went through, in order
+    k = 0
+    for text in tlines:
+        while k < len(shown) and not any(value_matches(text, r) for r in faithful_renderings(shown[k])):
+            k += 1
+        if k == len(shown):
+            return R({'expected': 'each Target line is (a prefix of) the representation of the object received; candidates: %s'
+                                  % ' / '.join(faithful_renderings(shown[-1])[0][:120] for _ in (0,)),
+                      'observed': 'Target: %s' % text, **where}, 'unfaithful')
+    if not tlines or not any(value_matches(tlines[-1], r) for r in faithful_renderings(value)):
+        return R({'expected': 'the last Target line shows the value the failing spec received (%s...)' % faithful_renderings(value)[0][:100],
+                  'observed': 'Target lines: %r' % (tlines,), **where}, 'unfaithful')
+    truncated = tlines[-1].endswith(')') and '... (len=' in tlines[-1] or tlines[-1].endswith('...')
+    return R(None, ('truncated' if truncated else 'full') + ':' + position, nontrivial=True, steps=len(items), tags={vname, position, fname})
+
+
 def subs(tier, only=None):
-    return [Sub('trace', gen_cases(tier), run_case,
+    return [Sub('long-values', [[v, p, f] for v in LONG_VALUES for p in LONG_POSITIONS for f in LONG_FAILS], run_long,
+                rule='case = (container of 150 items: dict / list / tuple subclasses with and without a repr of their own, dicts whose insertion order is '
+                     'not sorted order, deque; position in the evaluation; failing spec): every Target line must be (a prefix of) repr / reprlib / '
+                     'sorted-key rendering of the object the evaluation went through at that point',
+                min_nontrivial=250, min_outcomes=4, required_tags=['ordereddict-reversed', 'dict-unsorted-insertion', 'list-subclass-own-repr', 'root', 'list-item']),
+            Sub('trace', gen_cases(tier), run_case,
                 rule='case = (target kind, spec term with at least one failing leaf reached); the parsed trace is compared with the failure spine of '
                      'the reference interpreter; non-trivial = the evaluation fails',
                 min_nontrivial=2000, min_outcomes=5,
